@@ -120,6 +120,17 @@ Theorem C15_legacy_text_logger_error_refuted :
 Proof. exact legacy_text_logger_errors. Qed.
 Print Assumptions C15_legacy_text_logger_error_refuted.
 
+(* marbl never reads the body itself, nor does a skipped logger: a failing
+   body source is met only by whoever forwards the message. *)
+Theorem C15_marbl_never_reads_body : forall skip m, reads_body LMarbl skip m = false.
+Proof. exact marbl_never_reads_body. Qed.
+Print Assumptions C15_marbl_never_reads_body.
+
+Theorem C15_skipped_logger_never_reads_body : forall lg m,
+  (forall o, lg <> LSnap o) -> reads_body lg true m = false.
+Proof. exact skipped_logger_never_reads_body. Qed.
+Print Assumptions C15_skipped_logger_never_reads_body.
+
 (* The oracle evaluated on the real code's outputs is the property. *)
 Theorem C15_oracle_is_the_property : forall skip m o,
   c15_ok skip m o = true <->
@@ -128,7 +139,7 @@ Theorem C15_oracle_is_the_property : forall skip m o,
      h ++ b ++ t = full /\ exists p, h = p ++ crlf ++ crlf) /\
   (forall r, ob_reparse o = Some r -> option_map canon r = Some (canon m)) /\
   (skip = true -> ob_records o = 0%nat) /\
-  ob_err o = false /\
+  (ob_err o = true -> ob_src_failed o = true) /\
   (forall snap ref, ob_startline o = Some (snap, ref) -> snap = ref).
 Proof. exact c15_ok_iff. Qed.
 Print Assumptions C15_oracle_is_the_property.
